@@ -318,6 +318,23 @@ theorem safeAt_sound (t : Table) : ∀ (fuel : Nat) (name : String), safeAt t fu
 
 /-! ## what a successful validation establishes -/
 
+theorem coinFact_holds {env : Env} {fs : List Fact} (hfs : ∀ f ∈ fs, Fact.holds env f) {p m : String} {b : Bool}
+    (h : hasCoinFact fs p m b = true) : ∃ q, env.isNil p = false ∧ (predVal m (env.big p)).getD (env.ext m [q]) = b := by
+  simp only [hasCoinFact, List.any_eq_true] at h
+  obtain ⟨x, hx, hm⟩ := h
+  have hh := hfs x hx
+  unfold Fact.holds at hh
+  obtain ⟨a, b'⟩ := x
+  cases a <;> try (simp at hm)
+  case coinPred q m' =>
+    obtain ⟨⟨rfl, rfl⟩, rfl⟩ := hm
+    simp only [Atom.eval] at hh
+    have hn := ite_none_some hh
+    simp only [Bool.not_eq_true] at hn
+    simp only [hn, Bool.false_eq_true, if_false, Option.some.injEq] at hh
+    exact ⟨q, hn, hh⟩
+
+set_option linter.unusedSimpArgs false in
 theorem need_sound {env : Env} {fs : List Fact} (hfs : ∀ f ∈ fs, Fact.holds env f) (n : Need) (h : followsNeed fs n = true) :
     n.holds env := by
   cases n with
@@ -360,7 +377,7 @@ theorem need_sound {env : Env} {fs : List Fact} (hfs : ∀ f ∈ fs, Fact.holds 
       simp only [Bool.not_eq_true] at hn
       simp only [hn, Bool.false_eq_true, if_false, Option.some.injEq] at hh
       exact ⟨hn, hh⟩
-    rcases h with (((((h | h) | h) | h) | h) | h) | h
+    rcases h with (((((((h | h) | h) | h) | h) | h) | h) | h) | h
     · obtain ⟨h1, h2⟩ := keyP _ _ h
       refine ⟨h1, ?_⟩
       simp [predVal] at h2
@@ -369,21 +386,39 @@ theorem need_sound {env : Env} {fs : List Fact} (hfs : ∀ f ∈ fs, Fact.holds 
       refine ⟨h1, ?_⟩
       simp [predVal] at h2
       omega
-    all_goals
-      obtain ⟨h1, h2⟩ := keyS _ _ h
+    · obtain ⟨h1, h2⟩ := keyS _ _ h
+      exact ⟨h1, by simp only [Cmp.eval, decide_eq_false_iff_not, decide_eq_true_eq] at h2; omega⟩
+    · obtain ⟨h1, h2⟩ := keyS _ _ h
+      exact ⟨h1, by simp only [Cmp.eval, decide_eq_false_iff_not, decide_eq_true_eq] at h2; omega⟩
+    · obtain ⟨h1, h2⟩ := keyS _ _ h
+      exact ⟨h1, by simp only [Cmp.eval, decide_eq_false_iff_not, decide_eq_true_eq] at h2; omega⟩
+    · obtain ⟨h1, h2⟩ := keyS _ _ h
+      exact ⟨h1, by simp only [Cmp.eval, decide_eq_false_iff_not, decide_eq_true_eq] at h2; omega⟩
+    · obtain ⟨h1, h2⟩ := keyS _ _ h
+      exact ⟨h1, by simp only [Cmp.eval, decide_eq_false_iff_not, decide_eq_true_eq] at h2; omega⟩
+    · obtain ⟨q, h1, h2⟩ := coinFact_holds hfs h
       refine ⟨h1, ?_⟩
-      simp only [Cmp.eval, decide_eq_false_iff_not, decide_eq_true_eq] at h2
+      simp [predVal] at h2
+      omega
+    · obtain ⟨q, h1, h2⟩ := coinFact_holds hfs h
+      refine ⟨h1, ?_⟩
+      simp [predVal] at h2
       omega
   | signGt0 p =>
     simp only [followsNeed, Bool.or_eq_true] at h
     simp only [Need.holds]
-    rcases h with (h | h) | h
+    rcases h with ((h | h) | h) | h
     · have hh := hasFact_holds hfs h
       simp only [Atom.eval] at hh
       have hn := ite_none_some hh
       simp only [Bool.not_eq_true] at hn
       simp [hn, predVal] at hh
       exact ⟨hn, hh⟩
+    rotate_left 2
+    · obtain ⟨q, h1, h2⟩ := coinFact_holds hfs h
+      refine ⟨h1, ?_⟩
+      simp [predVal] at h2
+      omega
     all_goals
       have hh := hasFact_holds hfs h
       simp only [Atom.eval] at hh
